@@ -176,6 +176,12 @@ impl ProbeCore {
     }
 
     fn hint(&self, rem: usize) -> (usize, Option<usize>) {
+        {
+            // an access of the wrapped iterator like any other: a scheduling point, and reported
+            let _g = Flag::off();
+            yield_point(Pending::Probe);
+            emit(json!({"e":"HintRead","t":cur_tid(),"it":self.it,"busy":self.in_next}));
+        }
         match self.hint {
             Hint::Exact => (rem, Some(rem)),
             Hint::Inexact => (0, Some(rem)),
